@@ -5,11 +5,11 @@ package main
 
 import (
 	"fmt"
-	"strings"
 	"go/token"
 	"go/types"
 	"reflect"
 	"sort"
+	"strings"
 
 	"golang.org/x/tools/go/ssa"
 )
@@ -235,7 +235,7 @@ func (x *Explorer) atLoopHead(st *State, f *Frame, li *LoopInfo) {
 		if old == nil {
 			old = Sym("H0:"+name, cur.Sort)
 		}
-		return frameFormula(name, cur, old, mods, r)
+		return Implies(st.unchargedGuard(name, r), frameFormula(name, cur, old, mods, r))
 	}
 	if al := f.loops[li.Header]; al != nil {
 		// arrival over a back edge: preservation, then the path ends
@@ -243,15 +243,15 @@ func (x *Explorer) atLoopHead(st *State, f *Frame, li *LoopInfo) {
 			env := x.specEnv(st, f, f.contract)
 			env.iterHeap, env.iterCells = al.iterHeap, al.iterCells
 			for _, cl := range invs {
-				env.goal = true
-				g := env.evalBool(cl.Expr)
-				x.emit(st, "inv-preserve", cl.Label, site, g, cl.Where)
+				if g, ok := x.goalOf(st, env, cl, "inv-preserve", site); ok {
+					x.emit(st, "inv-preserve", cl.Label, site, g, cl.Where)
+				}
 			}
 			if framed {
 				mods := x.contractMods(st, f)
 				for _, name := range sortedKeys(al.written) {
 					cur := st.heap[name]
-					if cur == nil || strings.HasPrefix(name, "map:") {
+					if cur == nil || strings.HasPrefix(name, "map:") || st.unframed[name] {
 						continue
 					}
 					r := st.freshInt("frame_r")
@@ -273,6 +273,7 @@ func (x *Explorer) atLoopHead(st *State, f *Frame, li *LoopInfo) {
 	}
 	// first arrival: infer the set of heap arrays written by the body (fixpoint over dry runs)
 	W := map[string]string{}
+	seen := map[string]bool{}
 	depth := len(st.frames)
 	for iter := 0; iter < 4; iter++ {
 		dry := st.clone()
@@ -281,12 +282,12 @@ func (x *Explorer) atLoopHead(st *State, f *Frame, li *LoopInfo) {
 		dry.dryDepth = depth
 		dry.written = map[string]bool{}
 		dry.lastHeap = map[string]*Term{}
+		dry.unchargedSeen = seen
 		df := dry.top()
 		x.havocLoop(dry, df, li, W)
 		denv := x.specEnv(dry, df, df.contract)
 		for _, cl := range invs {
-			denv.goal = false
-			dry.assume(denv.evalBool(cl.Expr))
+			x.assumeClause(dry, denv, cl)
 		}
 		df.loops[li.Header] = &activeLoop{info: li, written: W}
 		saved := x.work
@@ -306,6 +307,25 @@ func (x *Explorer) atLoopHead(st *State, f *Frame, li *LoopInfo) {
 			break
 		}
 	}
+	if len(seen) > 0 {
+		// an uncontracted callee writes through a pointer argument inside the loop: those heap
+		// arrays are excluded from frame reasoning from here on (no frame assumption, no frame
+		// obligation) instead of assuming an invariant the callee may break
+		nu := map[string]bool{}
+		for k := range st.unframed {
+			nu[k] = true
+		}
+		for k := range seen {
+			nu[k] = true
+			if st.unchargedSeen != nil {
+				st.unchargedSeen[k] = true
+			}
+			if !st.dry {
+				st.note("heap " + k + " is written by an uncontracted callee inside " + site + ": not framed")
+			}
+		}
+		st.unframed = nu
+	}
 	// establishment, in the state before the havoc
 	var mods []Loc
 	if framed {
@@ -314,14 +334,14 @@ func (x *Explorer) atLoopHead(st *State, f *Frame, li *LoopInfo) {
 	if !st.dry {
 		env := x.specEnv(st, f, f.contract)
 		for _, cl := range invs {
-			env.goal = true
-			g := env.evalBool(cl.Expr)
-			x.emit(st, "inv-establish", cl.Label, site, g, cl.Where)
+			if g, ok := x.goalOf(st, env, cl, "inv-establish", site); ok {
+				x.emit(st, "inv-establish", cl.Label, site, g, cl.Where)
+			}
 		}
 		if framed {
 			for _, name := range sortedKeys(W) {
 				cur := st.heap[name]
-				if cur == nil || strings.HasPrefix(name, "map:") {
+				if cur == nil || strings.HasPrefix(name, "map:") || st.unframed[name] {
 					continue
 				}
 				r := st.freshInt("frame_r")
@@ -336,7 +356,7 @@ func (x *Explorer) atLoopHead(st *State, f *Frame, li *LoopInfo) {
 		// implicit frame invariant: relative to the pre-state of the function, objects that
 		// existed before the call differ only at the contract's modifies locations
 		for _, name := range sortedKeys(W) {
-			if strings.HasPrefix(name, "map:") {
+			if strings.HasPrefix(name, "map:") || st.unframed[name] {
 				continue
 			}
 			x.fresh++
@@ -346,8 +366,7 @@ func (x *Explorer) atLoopHead(st *State, f *Frame, li *LoopInfo) {
 	}
 	env := x.specEnv(st, f, f.contract)
 	for _, cl := range invs {
-		env.goal = false
-		st.assume(env.evalBool(cl.Expr))
+		x.assumeClause(st, env, cl)
 	}
 	al := &activeLoop{info: li, written: W}
 	al.iterHeap = copyHeap(st.heap)
